@@ -54,8 +54,19 @@ def _task(t):
                     secs=0.0, stats={}, variant=variant, leftover=[], root=root)
 
 
+def _cpu_seconds(pid):
+    """CPU time (user + system) consumed so far by process `pid`; 0 when it cannot be read."""
+    try:
+        with open("/proc/%d/stat" % pid) as f:
+            parts = f.read().rsplit(")", 1)[1].split()
+        return (int(parts[11]) + int(parts[12])) / float(os.sysconf("SC_CLK_TCK"))
+    except Exception:  # noqa
+        return 0.0
+
+
 class Farm:
-    """Fork-per-task scheduler with a hard wall-clock limit per task.
+    """Fork-per-task scheduler with a hard limit per task, counted in CPU seconds of the task (a busy machine
+    stretches a run, it does not turn tasks into `hangs`); 8x that in wall-clock seconds is the outer safety net.
 
     z3 does not honour its timeout (nor interrupt()) in every phase; a task that exceeds its
     deadline is killed and retried once, then reported as a hang (-> undecided, never a verdict).
@@ -115,7 +126,7 @@ class Farm:
                         self.submit(fn, arg, tag, tries + 1)
                     else:
                         yield tag, arg, {"farm_error": "worker died (exit code %s)" % p.exitcode}
-                elif time.time() - start > self.deadline:
+                elif _cpu_seconds(p.pid) > self.deadline or time.time() - start > self.deadline * 8:
                     p.terminate()
                     p.join(5)
                     if p.is_alive():
@@ -125,7 +136,7 @@ class Farm:
                     if tries < 1:
                         self.submit(fn, arg, tag, tries + 1)
                     else:
-                        yield tag, arg, {"farm_error": "task exceeded its %d s wall-clock limit twice (solver hang)" % self.deadline}
+                        yield tag, arg, {"farm_error": "task exceeded its %d s CPU / wall-clock limit twice (solver hang)" % self.deadline}
             if not progressed:
                 time.sleep(0.02)
 
@@ -452,7 +463,7 @@ def run_property(pid, tier="quick", seed=0, extra=None):
         lines.append("VIOLATION property=%s replay=%s%s" % (pid, os.path.relpath(path, ROOT), "" if reproduced else " no-failing-input-found"))
 
     # ------------------------------------------------------------------ evidence
-    functions = sorted({vname(q, v) for q, v in tasks})
+    functions = sorted({vname(q, v) for q, v in tasks} | set((ext or {}).get("functions", [])))
     n_obl = len(obligations)
     n_dis = len(discharged)
     bounded_list = [dict(function=vname(b["qual"], b.get("variant")), bound="%d of %d enumerated small inputs (networks of <=4 nodes / <=3 edges x argument pool), seed %d" % (b.get("cases", 0), b.get("space", 0), seed),
@@ -468,8 +479,7 @@ def run_property(pid, tier="quick", seed=0, extra=None):
             checker_cmd="python3-vt pyvc/driver.py %s --tier %s" % (pid, tier),
             trusted_base=sorted(set(_trusted() + (ext.get("trusted", []) if ext else []))),
             functions_under_contract=functions,
-            backends={"z3 5.1 (python API), uninterpreted Id + quantifiers": n_dis - sum(1 for o in discharged if o.get("external")),
-                      "other": sum(1 for o in discharged if o.get("external"))},
+            backends=_backend_counts(discharged),
             solver_seconds=round(solver_secs, 2),
             undecided=[o["name"] for o in undecided][:50],
             refuted=[o["name"] for o in refuted][:50],
@@ -510,6 +520,14 @@ def run_property(pid, tier="quick", seed=0, extra=None):
             print("UNDECIDED %s: %s" % (vname(q, v), e))
         return 2
     return 0
+
+
+def _backend_counts(discharged):
+    out = {}
+    for o in discharged:
+        b = o.get("backend") if o.get("external") else "z3 5.1 (python API), uninterpreted Id + quantifiers"
+        out[b or "other"] = out.get(b or "other", 0) + 1
+    return out
 
 
 def _trusted():
